@@ -25,7 +25,7 @@ var IntFollowers = []string{"", " ", ",", "]", "}", ".", ".5", "e", "e5", "E5", 
 var IntPrefixes = []string{"", " ", "\n\t"}
 
 var IntShapes = []string{"-", "- 1", "-\n1", "+1", "01", "-01", "00", "-0", "-00", "0", "0.0", "0e0", "1.0", "1e0", "", " ", "a", "-a", "\"1\"", "null", "true", "[1]",
-	"1 2", "0x1", "0 ", "-0 ", "-0.0", "-0e1", "1_000", "--1", "-+1", "1-", "1+", "١", "0b1", "1,2", "-\t1", "- ", "-x", ".1", "-.1", "1.", "-1.", "1e", "1E+", "+0", "+", "٣", "１"}
+	"1 2", "0x1", "0 ", "-0 ", "-0.0", "-0e1", "1_000", "--1", "-+1", "1-", "1+", "\xd9\xa1", "0b1", "1,2", "-\t1", "- ", "-x", ".1", "-.1", "1.", "-1.", "1e", "1E+", "+0", "+", "\xd9\xa3", "\xef\xbc\x91"}
 
 // W6Ints emits integer literals: every value within +-window of each center x prefixes x
 // followers, plus hand shapes, plus random digit strings of every length 1..40.
